@@ -104,20 +104,40 @@ def replay_file(path):
 
 
 def check_known_concretely(prop, known, modnames):
-    """Re-execute the recorded concrete input of every listed finding of this property.
+    """Re-execute the recorded concrete input of every listed finding of this property, in a
+    subprocess (CrossHair's import-time patches never live in the runner).
 
     open + still failing -> KNOWN-FINDING line; open + no longer failing -> note;
-    fixed + failing again -> VIOLATION (handled by caller through normal search too)."""
-    from kv import rt  # noqa: F401
-    from kv import worker
+    fixed + failing again -> VIOLATION (a fixed entry suppresses nothing)."""
+    entries = [f for f in known if f["property"] == prop]
+    if not entries:
+        return []
+    code = (
+        "import json,sys,importlib\n"
+        "from kv import rt, worker\n"
+        "out=[]\n"
+        "for f in json.load(sys.stdin):\n"
+        "    try:\n"
+        "        mod=importlib.import_module(f['module'])\n"
+        "        h=getattr(mod,f['factory'])(**f.get('kwargs',{}))\n"
+        "        args={k:worker.unjson(v) for k,v in f['args'].items()}\n"
+        "        ok,detail=worker.concrete_call(h,args)\n"
+        "    except Exception as e:\n"
+        "        ok,detail=None,'could not re-execute: %r'%(e,)\n"
+        "    out.append([f['key'],ok,detail])\n"
+        "print('KVKNOWN '+json.dumps(out))\n")
+    env = dict(os.environ)
+    env["PYTHONPATH"] = HERE + os.pathsep + env.get("PYTHONPATH", "")
+    p = subprocess.run([sys.executable, "-c", code], input=json.dumps(entries), cwd=HERE, env=env,
+                       stdout=subprocess.PIPE, stderr=subprocess.PIPE, text=True)
+    res = {}
+    for line in p.stdout.splitlines():
+        if line.startswith("KVKNOWN "):
+            for key, ok, detail in json.loads(line[len("KVKNOWN "):]):
+                res[key] = (ok, detail)
     out = []
-    for f in known:
-        if f["property"] != prop:
-            continue
-        mod = importlib.import_module(f["module"])
-        h = getattr(mod, f["factory"])(**f.get("kwargs", {}))
-        args = {k: worker.unjson(v) for k, v in f["args"].items()}
-        ok, detail = worker.concrete_call(h, args)
+    for f in entries:
+        ok, detail = res.get(f["key"], (None, "no result: " + p.stderr[-300:]))
         out.append((f, ok, detail))
     return out
 
@@ -140,13 +160,18 @@ def run_property(prop, tier, only=None):
     # 1. listed findings, concretely
     known_seen = []
     kf_lines = []
+    regressions = []
     for f, ok, detail in check_known_concretely(prop, known, spec["modules"]):
-        if f.get("status") == "open":
+        if ok is None:
+            print("note: listed finding %s could not be re-executed (%s)" % (f["key"], detail))
+        elif f.get("status") == "open":
             if not ok:
                 kf_lines.append("KNOWN-FINDING: property=%s %s" % (prop, f["what"]))
                 known_seen.append(f["key"])
             else:
                 print("note: listed finding %s no longer reproduces (%s)" % (f["key"], detail))
+        elif not ok:
+            regressions.append((f, detail))
     for line in kf_lines:
         print(line)
     # 2. all conditions (regions of open findings excluded inside the worker)
@@ -180,6 +205,14 @@ def run_property(prop, tier, only=None):
             inconclusive.append(r)
     rc = EXIT_OK
     replay_paths = []
+    for f, detail in regressions:
+        r = dict(module=f["module"], tier=tier, name="fixed-" + f["key"], factory=f["factory"],
+                 kwargs=f.get("kwargs", {}), cex=f["args"], messages=[{"message": "fixed finding is back: " + f["what"]}],
+                 replay_detail=detail)
+        path = write_replay(prop, r)
+        print("VIOLATION property=%s replay=%s" % (prop, path))
+        print("  the defect recorded as fixed (%s) reproduces again: %s" % (f["key"], detail))
+        rc = EXIT_VIOLATION
     for r in violations:
         path = write_replay(prop, r)
         replay_paths.append(path)
@@ -196,7 +229,7 @@ def run_property(prop, tier, only=None):
         print("INCONCLUSIVE: condition %s verdict=%s twin_ok=%s paths=%s (%s)" % (
             r["name"], r.get("verdict"), r.get("twin_ok"), r.get("paths"), r.get("note", "")))
     write_evidence(prop, tier, seed, spec, results, confirmed, inconclusive, violations, machinery,
-                   known_seen, st, time.time() - t0)
+                   known_seen, st, time.time() - t0, len(regressions))
     print("%s %s: %d conditions: %d confirmed, %d inconclusive, %d violations, %d machinery errors; "
           "%d known findings; %.1fs" % (prop, tier, len(results), len(confirmed), len(inconclusive),
                                         len(violations), len(machinery), len(known_seen), time.time() - t0))
@@ -204,7 +237,7 @@ def run_property(prop, tier, only=None):
 
 
 def write_evidence(prop, tier, seed, spec, results, confirmed, inconclusive, violations, machinery,
-                   known_seen, st, wall):
+                   known_seen, st, wall, n_regressions=0):
     paths = sum(int(r.get("paths") or 0) for r in results)
     conf_paths = sum(int(r.get("confirmed_paths") or 0) for r in results)
     funcs = sorted({f for r in results for f in (r.get("functions_encoded") or [])})
@@ -258,7 +291,7 @@ def write_evidence(prop, tier, seed, spec, results, confirmed, inconclusive, vio
             "kv/models.py models of int.to_bytes, struct.pack('!c'), os.urandom (validated by kv/selftest.py)",
         ],
         "wall_s": round(wall, 2),
-        "violations": len(violations),
+        "violations": len(violations) + n_regressions,
     }
     evdir = os.environ.get("KV_EVIDENCE_DIR") or os.path.join(HERE, "evidence")
     os.makedirs(evdir, exist_ok=True)
